@@ -39,6 +39,18 @@ flow main
   send Out1(done=True)
   match Never()
 """),
+    ("rich:sets", """flow main
+  $m = {1, "a", None, 2.5}
+  $c = {8, 0, 16, 3}
+  $e = {16, 8}
+  match E1()
+  send Out1(v="{$c}", f=list($c)[0], g=list($e)[0])
+  match E2()
+  send Out2(n=len($m), w="{$e}")
+  match E3()
+  send Out3(x=list($c), y=list($e))
+  match Never()
+"""),
     ("rich:regex", """flow main
   $r = regex("a.*")
   match E1()
@@ -172,6 +184,55 @@ def _worker(job):
     return res
 
 
+API_PROGRAM = """import core
+
+flow main
+  $n = 0
+  while True
+    user said something
+    $n = $n + 1
+    bot say "message {$n}"
+"""
+
+
+def llmrails_cases():
+    """Save/restore as the public API does it: LLMRails.generate(messages, state=<state of an earlier reply>).  Every
+    saved state is continued again later (retry / branching), on the same instance and on a new one: each continuation
+    must answer exactly as the first continuation from that state did."""
+    from nemoguardrails import LLMRails, RailsConfig
+    from harness import doubles
+    doubles.register_embed()
+    cfg = RailsConfig.from_content(colang_content=API_PROGRAM, yaml_content=doubles.MODELS_YAML + "colang_version: 2.x\n")
+
+    def new_app():
+        return LLMRails(cfg, llm=doubles.ScriptedLLM(responder=lambda t, p_, l: "x", calls=[]))
+
+    def turn(app, state, text):
+        res = app.generate(messages=[{"role": "user", "content": text}], state=state)
+        return res.response[0].get("content"), res.state
+
+    out = []
+    app = new_app()
+    states, replies = [{}], []
+    for t in range(4):
+        r, st = turn(app, states[-1], "u%d" % t)
+        replies.append(r)
+        states.append(st)
+    for k in range(0, 4):               # continue again from the state saved after turn k
+        for where, a in (("same instance", app), ("new instance", new_app())):
+            got, err = [], None
+            st = states[k]
+            try:
+                for t in range(k, 4):
+                    r, st = turn(a, st, "u%d" % t)
+                    got.append([r])
+            except Exception as ex:
+                err = "continuation raised %s: %s" % (type(ex).__name__, ex)
+            out.append({"kind": "json", "origin": "api:counter", "ref": [[x] for x in replies[k:]], "got": got, "ref_err": None, "err": err,
+                        "k": k, "events": ["generate(state=state after turn %d) again on the %s" % (k, where)], "hist": []})
+    return out
+
+
 def run(ctx):
     nprog = 40 if ctx.quick else 600
     progs = [("gen:%d" % i, s) for i, s in enumerate(progs2.generated(ctx.seed + 31, nprog))]
@@ -211,7 +272,10 @@ def run(ctx):
         srcs.setdefault(ap["origin"], ap["source"])
         cases.append({"kind": "aged", "origin": ap["origin"], "ref": ap["ref"], "got": ap["got"], "ref_err": ap["ref_err"], "err": ap["err"],
                       "k": sum(1 for h in ap["hist"] if h[0] == 0), "events": ["%d/%d/%d" % tuple(h) for h in ap["hist"]], "hist": ap["hist"]})
-    ctx.log("%d programs, %d (history, cut point, mode) continuations" % (len(progs), len(cases)))
+    api_cases = llmrails_cases()
+    srcs["api:counter"] = API_PROGRAM
+    cases += api_cases
+    ctx.log("%d programs, %d (history, cut point, mode) continuations (%d through LLMRails.generate(state=...))" % (len(progs), len(cases), len(api_cases)))
     # judge with TLC
     jd = ctx.sub("judge")
     jf = os.path.join(jd, "obs.json")
